@@ -194,6 +194,10 @@ impl ast::Stanza {
             .next()
             .expect("missing capture for full match");
         debug!("match {:?} at {}", node, self.range.start);
+        #[cfg(feature = "verif")]
+        crate::verif::emit(|| {
+            crate::verif::json!({"e": "match", "row": self.range.start.row, "col": self.range.start.column, "root": node.id()})
+        });
         trace!("{{");
         for statement in &self.statements {
             let error_context = { StatementContext::new(&statement, &self, &node) };
@@ -227,6 +231,11 @@ impl ast::Stanza {
 impl ast::Statement {
     fn execute_lazy(&self, exec: &mut ExecutionContext) -> Result<(), ExecutionError> {
         exec.cancellation_flag.check("executing statement")?;
+        #[cfg(feature = "verif")]
+        crate::verif::emit(|| {
+            let l = self.location();
+            crate::verif::json!({"e": "stmt", "row": l.row, "col": l.column})
+        });
         match self {
             Self::DeclareImmutable(statement) => statement.execute_lazy(exec),
             Self::DeclareMutable(statement) => statement.execute_lazy(exec),
@@ -267,6 +276,8 @@ impl ast::Assign {
 impl ast::CreateGraphNode {
     fn execute_lazy(&self, exec: &mut ExecutionContext) -> Result<(), ExecutionError> {
         let graph_node = exec.graph.add_graph_node();
+        #[cfg(feature = "verif")]
+        crate::verif::emit(|| crate::verif::json!({"e": "gnode", "id": graph_node.index()}));
         self.node
             .add_debug_attrs(&mut exec.graph[graph_node].attributes, exec.config)?;
         if let Some(match_node_attr) = &exec.config.match_node_attr {
